@@ -29,6 +29,25 @@ PROPS["C03"] = dict(
        H("c03::c03_twin_must_fail", expect_fail=True, bounds="vacuity twin", mem_gb=6)],
 )
 
+# --------------------------------------------------------------------------- C05
+import jobs_e3 as _je3
+PROPS["C05"] = dict(
+    functions=["revm_interpreter::opcode::instruction::<H, SPEC>(opcode) (the match behind make_instruction_table)",
+               "every instruction function it returns: its `check!(FORK)` inline-const gate and require_eof!/require_init_eof! guard",
+               "revm_primitives::spec_to_generic! (SpecId -> Spec type) and spec!(..) SPEC_ID constants",
+               "revm_precompile::PrecompileSpecId::from_spec_id (symbolically executed from MIR)"],
+    bounds="all 256 opcode bytes x all 21 mainnet SpecIds (one SMT query over symbolic (op, spec); 0xFE excluded: it halts whether defined or not); "
+           "all SpecIds for the precompile-set mapping (every MIR path of from_spec_id)",
+    outside="that an activated opcode executes correctly (C01/C03); the membership of each precompile address in Precompiles::new(id) "
+            "(lazy statics + hash maps: not encodable) and `behaves as an empty account before` at call level; optimism SpecIds; EOF code",
+    assumptions=["an instruction is undefined in legacy code under SPEC iff the table maps its byte to `unknown`, or its function carries the EOF-only guard, or SPEC is below its check! gate; "
+                 "the gate is taken from the inline const `!SPEC::SPEC_ID.is_enabled_in(FORK)` whose true-branch sets NotActivated (both checked in MIR)",
+                 "reference: opcode -> introducing hardfork transcribed from the EIPs in lib/jobs_e3.py",
+                 "a disagreement is reported only if executing that opcode under that SpecId on the real interpreter (native tool) confirms it; a disagreement that does "
+                 "not reproduce makes the check inconclusive (gate no longer expressed as check!)"],
+    jobs=[dict(name="e3::opcode_and_precompile_fork_tables", fn=_je3.run_fork_tables)],
+)
+
 # --------------------------------------------------------------------------- C07
 import jobs_e3
 PROPS["C07"] = dict(
@@ -206,6 +225,14 @@ PROPS["C14"] = dict(
 
 # --------------------------------------------------------------------------- manifest text per claimed property
 CLAIMS = {
+    "C05": dict(
+        text="The opcode->function table and each function's hardfork gate are extracted from the MIR of the current tree, the SpecId->Spec-type mapping from spec_to_generic!, "
+             "and z3/cvc5 are asked for any (opcode, SpecId) pair among all 256 x 21 on which `undefined in legacy code` differs from the EIP introduction table; "
+             "PrecompileSpecId::from_spec_id is executed symbolically from MIR against the fork->precompile-set table for every SpecId. Disagreements are replayed by "
+             "executing that opcode under that fork on the real interpreter.",
+        note="Complete over the finite (opcode, SpecId) space for the gate structure; does not decide what an activated opcode does, nor precompile address membership per set.",
+        technique="MIR table/gate extraction and MIR symbolic execution, compared with EIP tables by SMT (z3+cvc5) over all opcode x SpecId pairs; native replay",
+        engine="smt-mir", design_ref="DESIGN.md §5 C05"),
     "C07": dict(
         text="The control-flow graphs of the six frame functions are taken from the MIR dump and encoded for z3 and cvc5: a path from entry to a normal "
              "return on which the number of checkpoints opened differs from the number committed/reverted (0 for a returned result, +1 for a returned frame that "
@@ -268,7 +295,7 @@ CLAIMS = {
         engine="kani-cbmc + smt-mir",
         design_ref="DESIGN.md §5 C32"),
 }
-SMT_SERVES = {"C32", "C07", "C22", "C20", "C21"}
+SMT_SERVES = {"C32", "C07", "C22", "C20", "C21", "C05"}
 
 # --------------------------------------------------------------------------- not applicable (reason shown in MANIFEST.json)
 NOT_APPLICABLE = {
